@@ -28,6 +28,13 @@ theorem one_list_items (order : List Nat) (kwargs : List (Nat × List Nat)) (k :
     (h : loopLists kwargs = [(k, vs)]) : combos order kwargs = vs.map (fun v => [(k, v)]) := by
   simp [combos, h]
 
+/-- one list-valued argument: no value is yielded twice (so with `combos_no_duplicates` and
+    `zero_lists_one_item` the no-duplicate clause covers 0, 1 and ≥ 2 list-valued arguments) -/
+theorem one_list_no_duplicates (order : List Nat) (kwargs : List (Nat × List Nat)) (k : Nat) (vs : List Nat)
+    (h : loopLists kwargs = [(k, vs)]) (hv : vs.Nodup) : (combos order kwargs).Nodup := by
+  rw [one_list_items order kwargs k vs h]
+  exact hv.map (fun a b hab => by simpa using hab)
+
 /-- length-1 lists are demoted to scalars: they never multiply the number of results -/
 theorem singleton_lists_demoted (kwargs : List (Nat × List Nat)) (kv : Nat × List Nat)
     (h : kv ∈ loopLists kwargs) : kv.2.length > 1 := by
